@@ -546,6 +546,11 @@ func (s *state) History(path []*graph.Edge, g *graph.Graph, restart bool) ([]Hei
 			fmt.Fprintf(h, "MSG|%s|%s\n", outcome, detail)
 		case "updateminter":
 			p := s.meta.BuildParams(graph.Rec(act["payload"]))
+			if len(recs)%2 == 1 {
+				// replicas are not compared with the model: every other update leaves the optional start time out (the zero
+				// value), as a proposal written by hand would - whatever the code substitutes must be the same on every node
+				p.StartTime = time.Time{}
+			}
 			outcome, detail, evs, _ := e.Deliver(ctx, &mtypes.MsgUpdateParams{Authority: env.Gov(), MintDenom: p.MintDenom, StartTime: p.StartTime, Minters: p.Minters})
 			fmt.Fprintf(h, "UPDM|%s|%s|%v\n", outcome, detail, evs)
 		case "updatedist":
